@@ -403,13 +403,24 @@ func checkW2(p *Prog, r *Result, a *txnAnalyzer, s *walSite, key string, txnSite
 			}
 			has := len(other.callsDeep(func(f *types.Func) bool { return objName(f) == s.spec.resolve })) > 0
 			if !has {
+				// the deferred literal hands the work to a function of the package (`defer func() { c.doCleanup(…) }()`)
+				for _, hc := range other.callsDeep(func(f *types.Func) bool { return f.Pkg() == other.Pkg.Types }) {
+					enc := a.p.enclosing(other.Pkg, hc.Pos())
+					if enc == nil {
+						continue
+					}
+					if Hh := a.p.ByObj[enc.Callee(hc)]; Hh != nil && Hh.Body != nil && len(Hh.callsDeep(func(f *types.Func) bool { return objName(f) == s.spec.resolve })) > 0 {
+						has = true
+					}
+				}
+			}
+			if !has {
 				continue
 			}
 			oreg := deferRegIndex(H, other)
 			if other == d {
 				// same literal: resolving call dominates the commit call
-				rc := other.callsDeep(func(f *types.Func) bool { return objName(f) == s.spec.resolve })[0]
-				if rc.Pos() < c.Pos() {
+				if rcs := other.callsDeep(func(f *types.Func) bool { return objName(f) == s.spec.resolve }); len(rcs) > 0 && rcs[0].Pos() < c.Pos() {
 					resolved = true
 				}
 				continue
